@@ -76,3 +76,12 @@ lemma("hms.split.unique", {"h1": "int", "i1": "int", "s1": "real",
                "0 <= i2 and i2 < 60 and 0 <= s2 and s2 < 60",
                "3600 * h1 + 60 * i1 + s1 == 3600 * h2 + 60 * i2 + s2"],
       note="h, m, s are determined by the second of day")
+
+lemma("day.floor", {"a": "int", "r": "real", "x": "real"},
+      "a == fdiv(x, 86400)",
+      assumes=["0 <= r and r < 86400", "86400 * a + r == x"],
+      note="whole days carried = floor(seconds / 86400)")
+
+lemma("day.floor.int", {"a": "int", "r": "int", "x": "int"},
+      "a == x // 86400 and r == x - 86400 * (x // 86400)",
+      assumes=["0 <= r and r < 86400", "86400 * a + r == x"])
